@@ -47,9 +47,19 @@ theorem C23R_apply_by_combiner_only (cfg : Cfg) (s s' : St) (t : Tid) (ev : Ev) 
         (holds (s.pc t) = true ∧ ∃ c, s.pc t = .cpExec c k ∧ s'.execs k = s.execs k + 1)) ∧
     (s.req k ≠ .resp → s'.req k = .resp → holds (s.pc t) = true ∧ ∃ c, s.pc t = .cpDone c k) ∧
     (s'.ctr ≠ s.ctr → holds (s.pc t) = true ∧ ∃ c j, s.pc t = .cpExec c j ∧ s'.ctr = s.ctr + 1 ∧ s'.res j = s.ctr) := by
-  cases hpc : s.pc t <;> simp only [step, hpc] at hs <;> (try split at hs) <;>
-    simp only [Option.some.injEq, Prod.mk.injEq, reduceCtorEq] at hs <;>
-    (try (obtain ⟨rfl, -⟩ := hs)) <;> (try exact hs.elim) <;> refine ⟨?_, ?_, ?_⟩ <;> intros <;> grind [upd, holds]
+  cases hpc : s.pc t
+  case cpState c p => cases p <;> simp only [step, hpc, Option.some.injEq, Prod.mk.injEq] at hs <;> obtain ⟨rfl, -⟩ := hs <;>
+    refine ⟨?_, ?_, ?_⟩ <;> intros <;> grind [upd, holds]
+  case c2State rest => cases rest <;> simp only [step, hpc, Option.some.injEq, Prod.mk.injEq] at hs <;> obtain ⟨rfl, -⟩ := hs <;>
+    refine ⟨?_, ?_, ?_⟩ <;> intros <;> grind [upd, holds]
+  case c2Nx rest => cases rest <;> simp only [step, hpc, Option.some.injEq, Prod.mk.injEq] at hs <;> obtain ⟨rfl, -⟩ := hs <;>
+    refine ⟨?_, ?_, ?_⟩ <;> intros <;> grind [upd, holds]
+  all_goals (simp only [step, hpc] at hs)
+  all_goals (try split at hs)
+  all_goals (simp only [Option.some.injEq, Prod.mk.injEq, reduceCtorEq] at hs)
+  all_goals (try (obtain ⟨rfl, -⟩ := hs))
+  all_goals (try exact hs.elim)
+  all_goals (refine ⟨?_, ?_, ?_⟩ <;> intros <;> grind [upd, holds])
 
 /-! ### Exactly once -/
 
@@ -172,12 +182,9 @@ def view (s : St) :=
 
 def runView (cfg : Cfg) (sched : List (Tid × Act)) := ((model cfg).run (init cfg) sched).map (fun r => view r.1)
 
-/-- The last event of a run, as the harness prints it. -/
-def lastEv (cfg : Cfg) (sched : List (Tid × Act)) : Option String :=
-  ((model cfg).run (init cfg) sched).bind (fun r => r.2.getLast?.map (fun o => match o.2 with
-    | .ev e => s!"T {o.1} A {e}"
-    | .call op => s!"T {o.1} CALL {op.name}"
-    | .ret r => s!"T {o.1} RET {r}"))
+/-- The last observable of a run. -/
+def lastObs (cfg : Cfg) (sched : List (Tid × Act)) : Option (Tid × Obs) :=
+  ((model cfg).run (init cfg) sched).bind (fun r => r.2.getLast?)
 
 /-- The schedule of a REAL run (harness case 0 of `fckernel --seed 1 --threads 2 --ops 2`: compact factor mask 0, one pass;
     thread 1 becomes the combiner, walks head -> r1 -> r0, serves both requests, compacts - nothing is old -, walks the
@@ -197,6 +204,6 @@ example : runView ⟨2, 0, 1⟩ realSchedule =
 
 /-- The 21st line of that real trace is `T 1 A ld r1.next r0` (after the pre-pass): the machine computes the same event
     from its list. -/
-example : lastEv ⟨2, 0, 1⟩ (realSchedule.take 21) = some "T 1 A ld r1.next r0" := by decide +kernel
+example : lastObs ⟨2, 0, 1⟩ (realSchedule.take 21) = some (1, .ev ⟨"ld", "r1.next", "r0", ""⟩) := by decide +kernel
 
 end CdsVerif.Props.C23KernelR
